@@ -56,8 +56,8 @@ theorem parse_buildWith (brk : Nat → Bool) (x : Gff) (h : wfBuild x = true) :
     simpa using this
   unfold parse
   rw [hlines, parseLines_doc _ _ _ _ _ _ _ _ _ _ _ (versionLine_split x h3) (regionLine_split x h1)
-    (versionLine_facts x).1 (versionLine_facts x).2 (regionLine_facts x).1 (regionLine_facts x).2 hmid htail.1]
-  rw [htail.2, atoi_regionStartText x h4, atoi_regionEndText x h5]
+    (versionLine_facts x).1 (versionLine_facts x).2 (regionLine_facts x).1 (regionLine_facts x).2 x.seq hmid htail]
+  rw [atoi_regionStartText x h4, atoi_regionEndText x h5]
   rfl
 
 /-- **Parse (Build x) = expected x** for Build as it is: a line break after every 70th letter except
@@ -97,15 +97,32 @@ theorem parse_build_preserves (x : Gff) (h : wfBuild x = true) (hs : allSet x = 
 
 /-! ### C14, second clause: coordinates -/
 
-/-- **Coordinate law on a Build round trip**: for a feature lying inside the sequence, the
-parsed feature's GetSequence is exactly bases `start+1 .. end` (1-based inclusive, the numbers
-written in columns 4 and 5) of the file's sequence. -/
-theorem coords_build (x : Gff) (h : wfBuild x = true) (f : Feature) (_hf : f ∈ x.features)
-    (s e : Nat) (hs : f.start = s) (he : f.stop = e) (h1 : s ≤ e) (h2 : e ≤ x.seq.length) :
-    ∃ y, parse (build x) = .ok y ∧ getSeq y.seq (expectedFeature x.locusName f) = .ok (bases x.seq (s + 1) e) := by
-  refine ⟨expected x, parse_build x h, ?_⟩
-  simp only [getSeq, expected, expectedFeature, hs, he]
-  exact slice_eq_bases x.seq s e h1 h2
+/-- the 0-based half-open interval of `f` lies inside a sequence of length `n` -/
+def inside (f : Feature) (n : Nat) : Prop := 0 ≤ f.start ∧ f.start ≤ f.stop ∧ f.stop ≤ n
+
+instance (f : Feature) (n : Nat) : Decidable (inside f n) := by unfold inside; infer_instance
+
+/-- **Coordinate law on a Build round trip, stated on the parse result**: whatever `Parse (Build x)`
+returns, its features correspond one to one, in order, to the features of `x`, and for every feature
+of `x` lying inside the sequence the PARSED feature's GetSequence is exactly bases `start+1 .. end`
+(1-based inclusive: the numbers Build wrote into columns 4 and 5) of the PARSED sequence. -/
+theorem coords_build (x : Gff) (h : wfBuild x = true) (y : Gff) (hy : parse (build x) = .ok y) :
+    List.Forall₂ (fun (g f : Feature) => inside f x.seq.length →
+        getSeq y.seq g = .ok (bases y.seq (f.start + 1).toNat f.stop.toNat)) y.features x.features := by
+  rw [parse_build x h] at hy
+  cases hy
+  simp only [expected]
+  rw [List.forall₂_map_left_iff]
+  apply List.forall₂_same.2
+  intro f _ hin
+  obtain ⟨h0, h1, h2⟩ := hin
+  have hs : f.start = ((f.start.toNat : Nat) : Int) := by omega
+  have he : f.stop = ((f.stop.toNat : Nat) : Int) := by omega
+  have hb : (f.start + 1).toNat = f.start.toNat + 1 := by omega
+  simp only [getSeq, expectedFeature]
+  rw [hb, hs, he]
+  simp only [Int.toNat_natCast]
+  exact slice_eq_bases x.seq f.start.toNat f.stop.toNat (by omega) (by omega)
 
 /-- `Outcome` of the location model (C02) -/
 def toLoc {α : Type} : Outcome α → Location.Outcome α
@@ -122,31 +139,36 @@ theorem getSeq_is_getFeatureSequence (parent : Str) (f : Feature) :
 
 /-! ### C14, third clause: text laid out by the independent writer -/
 
-/-- **The parse of any text written by the independent GFF3 writer is what the document denotes**
-— arbitrary FASTA line widths (also blank lines inside the sequence), `##` directive lines, blank
-lines between features, `#` comment lines (skipped since fix fdf6b17), with or without `###`, with or
-without the final newline. -/
-theorem parse_layout (d : GffDoc) (ℓ : Layout) (hd : wfDoc d = true) (hl : wfLayout ℓ = true) :
-    parse (layout d ℓ) = .ok (denote d) := by
+/-- **The parse of text written by the independent GFF3 writer is what the document denotes** —
+arbitrary FASTA line widths (also blank lines inside the sequence); any number of skip lines
+(blank lines, `#` comments, `##` directives, `###`) before every feature, after the last feature
+and between the lines of the FASTA section; with or without the final newline.
+PARTIAL: for `plainLayout ℓ`, i.e. `##sequence-region` on the second line, no `;` at the end of
+column 9, LF line ends.  The statement without that hypothesis is false of the code:
+`trailing_semicolon_witness`, `crlf_witness`, `directive_before_region_witness`. -/
+theorem parse_layout_partial (d : GffDoc) (ℓ : Layout) (hd : wfDoc d = true) (hl : wfLayout ℓ = true)
+    (hp : plainLayout ℓ = true) : parse (layout d ℓ) = .ok (denote d) := by
   simp only [wfDoc, Bool.and_eq_true, List.all_eq_true] at hd
   obtain ⟨⟨⟨⟨⟨⟨h1, h2⟩, h3⟩, h4⟩, h5⟩, h6⟩, h7⟩ := hd
   simp only [wfLayout, Bool.and_eq_true, List.all_eq_true] at hl
-  have hdirs := hl.1
-  have hcoms := hl.2
+  obtain ⟨⟨⟨hbetween, hafter⟩, hfasta⟩, _⟩ := hl
+  simp only [plainLayout, Bool.and_eq_true, Bool.not_eq_true', List.isEmpty_iff] at hp
+  obtain ⟨⟨hpre, hsemi⟩, hcr⟩ := hp
   -- the lines, in the shape of `parseLines_doc`
   let vline := joinSep ' ' [sGffVersion, d.version]
   let rline := joinSep ' ' [sSeqRegion, d.region, itoa d.regionFirst, itoa d.regionLast]
-  let mid := ℓ.directives ++ ℓ.comments ++ featBlock d.feats ℓ.gaps ++ (if ℓ.closeMark then [sClose] else [])
-  have hshape : layoutLines d ℓ = vline :: rline :: (mid ++ sFasta :: ('>' :: d.defline) :: chunks ℓ.widths d.seq) := by
-    simp [layoutLines, vline, rline, mid, List.append_assoc]
+  let mid := interleave (d.feats.map (featText false)) ℓ.between ++ ℓ.after
+  let tail := interleave (chunks ℓ.widths d.seq) ℓ.fastaBetween
+  have hshape : layoutLines d ℓ = vline :: rline :: (mid ++ sFasta :: ('>' :: d.defline) :: tail) := by
+    simp [layoutLines, hpre, hsemi, vline, rline, mid, tail, List.append_assoc]
   have hmid : MidOk mid (d.feats.map denoteFeat) := by
-    have hclose : MidOk (if ℓ.closeMark then [sClose] else []) [] := by
-      split
-      · exact MidOk.skip (by decide) (by decide)
-      · exact MidOk.nil
-    have := MidOk.append (MidOk.append (MidOk.append (midOk_directives ℓ.directives hdirs)
-      (midOk_comments ℓ.comments hcoms)) (midOk_featBlock d.feats ℓ.gaps h5)) hclose
+    have := MidOk.append (midOk_featLines d.feats ℓ.between h5 hbetween) (midOk_skips ℓ.after hafter)
     simpa [mid] using this
+  have hchunk : ∀ l ∈ chunks ℓ.widths d.seq, ∀ c ∈ l, seqChar c = true :=
+    fun l hl c hc => h7 c (chunks_mem _ _ l hl c hc)
+  have htail : TailOk tail d.seq := by
+    have := tailOk_chunks (chunks ℓ.widths d.seq) ℓ.fastaBetween hchunk hfasta
+    rwa [chunks_flatten] at this
   have hvsplit : idx (split ' ' vline) 1 = .ok d.version := by
     simp only [vline, joinSep]
     rw [split_cons_line _ (sGffVersion_free _ (by simp)), split_nosep (free_not_mem h1 (by simp))]
@@ -164,61 +186,103 @@ theorem parse_layout (d : GffDoc) (ℓ : Layout) (hd : wfDoc d = true) (hl : wfL
     rw [sSeqRegion_eq]
     exact header_line_facts _ _ _ (by decide)
   have hseqnl : '\n' ∉ d.seq := fun hm => (seqChar_facts (h7 _ hm)).1 rfl
-  have hchunk : ∀ l ∈ chunks ℓ.widths d.seq, ∀ c ∈ l, seqChar c = true :=
-    fun l hl c hc => h7 c (chunks_mem _ _ l hl c hc)
   -- no line holds a newline
   have hnonl : ∀ l ∈ layoutLines d ℓ, '\n' ∉ l := by
     rw [hshape]
     intro l hl
-    simp only [List.mem_cons, List.mem_append, mid] at hl
-    rcases hl with rfl | rfl | (((hl | hl) | hl) | hl) | rfl | rfl | hl
+    simp only [List.mem_cons, List.mem_append, mid, tail] at hl
+    rcases hl with rfl | rfl | (hl | hl) | rfl | rfl | hl
     · simp only [vline, joinSep, List.mem_append, List.mem_cons, not_or]
       exact ⟨sGffVersion_free _ (by simp), by decide, free_not_mem h1 (by simp)⟩
     · simp only [rline, joinSep, List.mem_append, List.mem_cons, not_or]
       exact ⟨sSeqRegion_free _ (by simp), by decide, free_not_mem h2 (by simp), by decide,
         itoa_free_tabnl _ _ (by simp), by decide, itoa_free_tabnl _ _ (by simp)⟩
-    · have := hdirs l hl
-      simp only [wfDirective, Bool.and_eq_true] at this
-      exact free_not_mem this.2 (by simp)
-    · have := hcoms l hl
-      simp only [wfComment, Bool.and_eq_true] at this
-      exact free_not_mem this.2 (by simp)
-    · exact featBlock_noNl d.feats ℓ.gaps h5 l hl
-    · split at hl
-      · simp only [List.mem_singleton] at hl; subst hl; decide
-      · simp at hl
+    · rcases mem_interleave _ _ l hl with hm | ⟨g, hg, hm⟩
+      · obtain ⟨f, hf, rfl⟩ := List.mem_map.1 hm
+        exact (featText_line (h5 f hf)).2.2
+      · exact (skip_facts (hbetween g hg l hm)).2
+    · exact (skip_facts (hafter l hl)).2
     · decide
     · simp only [List.mem_cons, not_or]
       exact ⟨by decide, free_not_mem h6 (by simp)⟩
-    · intro hm
-      exact hseqnl (chunks_mem _ _ l hl _ hm)
+    · rcases mem_interleave _ _ l hl with hm | ⟨g, hg, hm⟩
+      · exact fun hc => hseqnl (chunks_mem _ _ l hm _ hc)
+      · exact (skip_facts (hfasta g hg l hm)).2
   have hne : layoutLines d ℓ ≠ [] := by rw [hshape]; simp
   unfold parse layout
+  simp only [hcr, Bool.false_eq_true, if_false, joinLines_lf]
   by_cases hfn : ℓ.finalNewline = true
   · rw [if_pos hfn, split_joinSep_sep hne hnonl, hshape]
-    have : (vline :: rline :: (mid ++ sFasta :: ('>' :: d.defline) :: chunks ℓ.widths d.seq)) ++ [[]]
-        = vline :: rline :: (mid ++ sFasta :: ('>' :: d.defline) :: (chunks ℓ.widths d.seq ++ [[]])) := by simp
-    rw [this, parseLines_doc _ _ _ _ _ _ _ _ _ _ _ hvsplit hrsplit hvf.1 hvf.2 hrf.1 hrf.2 hmid
-      (by
-        intro l hl
-        rcases List.mem_append.1 hl with hl | hl
-        · exact hchunk l hl
-        · simp only [List.mem_singleton] at hl; subst hl; simp)]
-    simp [denote, chunks_flatten, atoi_itoa (inInt_spec h3), atoi_itoa (inInt_spec h4)]
+    have : (vline :: rline :: (mid ++ sFasta :: ('>' :: d.defline) :: tail)) ++ [[]]
+        = vline :: rline :: (mid ++ sFasta :: ('>' :: d.defline) :: (tail ++ [[]])) := by simp
+    have htail' : TailOk (tail ++ [[]]) d.seq := by
+      simpa using TailOk.append htail TailOk.blank
+    rw [this, parseLines_doc _ _ _ _ _ _ _ _ _ _ _ hvsplit hrsplit hvf.1 hvf.2 hrf.1 hrf.2 d.seq hmid htail']
+    simp [denote, atoi_itoa (inInt_spec h3), atoi_itoa (inInt_spec h4)]
   · rw [if_neg hfn, List.append_nil, split_joinSep hne hnonl, hshape,
-      parseLines_doc _ _ _ _ _ _ _ _ _ _ _ hvsplit hrsplit hvf.1 hvf.2 hrf.1 hrf.2 hmid hchunk]
-    simp [denote, chunks_flatten, atoi_itoa (inInt_spec h3), atoi_itoa (inInt_spec h4)]
+      parseLines_doc _ _ _ _ _ _ _ _ _ _ _ hvsplit hrsplit hvf.1 hvf.2 hrf.1 hrf.2 d.seq hmid htail]
+    simp [denote, atoi_itoa (inInt_spec h3), atoi_itoa (inInt_spec h4)]
 
-/-- **Coordinate law on laid-out text**: a feature line with columns 4 and 5 = `first`, `last`
-(1-based, inclusive, inside the sequence; `first = last + 1` is the empty interval) denotes a
-feature whose GetSequence is exactly bases `first..last` of the file's sequence. -/
-theorem coords_layout (d : GffDoc) (f : FeatLine) (s e : Nat) (hs : f.first = (s : Int) + 1) (he : f.last = e)
-    (h1 : s ≤ e) (h2 : e ≤ d.seq.length) :
-    getSeq (denote d).seq (denoteFeat f) = .ok (bases d.seq (s + 1) e) := by
-  simp only [getSeq, denote, denoteFeat, hs, he]
-  have : (s : Int) + 1 - 1 = s := by omega
-  rw [this]
-  exact slice_eq_bases d.seq s e h1 h2
+/-- a one-feature document for the three witnesses -/
+def witnessDoc : GffDoc :=
+  { version := ['3'], region := ['s'], regionFirst := 1, regionLast := 1,
+    feats := [{ seqid := ['s'], source := ['.'], type := ['g'], first := 1, last := 1, score := ['.'], strand := ['+'],
+                phase := ['.'], attrs := [(['I', 'D'], ['a'])] }],
+    defline := ['s'], seq := ['A'] }
+
+def FullLayoutClaim : Prop :=
+  ∀ (d : GffDoc) (ℓ : Layout), wfDoc d = true → wfLayout ℓ = true → parse (layout d ℓ) = .ok (denote d)
+
+theorem witness_of_panic (ℓ : Layout) (h1 : wfLayout ℓ = true) (h2 : parse (layout witnessDoc ℓ) = .panic) :
+    ¬ FullLayoutClaim := by
+  intro h
+  have := h witnessDoc ℓ (by decide) h1
+  rw [h2] at this
+  cases this
+
+/-- **Known finding C14-trailing-semicolon**, kernel-checked on the model: column 9 written as
+`ID=a;` makes `Parse` panic (`strings.Split("", "=")[1]`) -/
+theorem trailing_semicolon_witness : ¬ FullLayoutClaim :=
+  witness_of_panic { trailingSemi := true } (by decide) (by decide)
+
+/-- **Known finding C14-crlf**: the same text with CR LF line ends makes `Parse` panic (`##FASTA\r` is not
+the FASTA mark, `>s\r` is then split as a feature line) -/
+theorem crlf_witness : ¬ FullLayoutClaim :=
+  witness_of_panic { crlf := true } (by decide) (by decide)
+
+/-- **Known finding C14-directive-before-region**: a directive between `##gff-version` and
+`##sequence-region` makes `Parse` panic (the second line is taken for the region line) -/
+theorem directive_before_region_witness : ¬ FullLayoutClaim :=
+  witness_of_panic { preRegion := ["##species x".toList] } (by decide) (by decide)
+
+/-- the 1-based inclusive interval of the feature line `f` lies inside a sequence of length `n`
+(`first = last + 1` is the empty interval) -/
+def insideLine (f : FeatLine) (n : Nat) : Prop := 1 ≤ f.first ∧ f.first ≤ f.last + 1 ∧ f.last ≤ n
+
+instance (f : FeatLine) (n : Nat) : Decidable (insideLine f n) := by unfold insideLine; infer_instance
+
+/-- **Coordinate law on laid-out text, stated on the parse result**: whatever `Parse` returns for the
+text, its features correspond one to one, in order, to the feature lines of the document, and for
+every line whose columns 4 and 5 (`first`, `last`: 1-based, inclusive) lie inside the sequence the
+PARSED feature's GetSequence is exactly bases `first..last` of the PARSED sequence. -/
+theorem coords_layout (d : GffDoc) (ℓ : Layout) (hd : wfDoc d = true) (hl : wfLayout ℓ = true)
+    (hp : plainLayout ℓ = true) (y : Gff) (hy : parse (layout d ℓ) = .ok y) :
+    List.Forall₂ (fun (g : Feature) (f : FeatLine) => insideLine f d.seq.length →
+        getSeq y.seq g = .ok (bases y.seq f.first.toNat f.last.toNat)) y.features d.feats := by
+  rw [parse_layout_partial d ℓ hd hl hp] at hy
+  cases hy
+  simp only [denote]
+  rw [List.forall₂_map_left_iff]
+  apply List.forall₂_same.2
+  intro f _ hin
+  obtain ⟨h0, h1, h2⟩ := hin
+  have hs : f.first - 1 = (((f.first - 1).toNat : Nat) : Int) := by omega
+  have he : f.last = ((f.last.toNat : Nat) : Int) := by omega
+  have hb : f.first.toNat = (f.first - 1).toNat + 1 := by omega
+  simp only [getSeq, denoteFeat]
+  rw [hb, hs, he]
+  simp only [Int.toNat_natCast]
+  exact slice_eq_bases d.seq (f.first - 1).toNat f.last.toNat (by omega) (by omega)
 
 /-! ### non-vacuity: concrete inputs meeting the hypotheses (tests, not theorems) -/
 
@@ -235,6 +299,7 @@ def sample : Gff :=
 
 example : wfBuild sample = true := by decide
 example : parse (build sample) = .ok (expected sample) := by decide
+example : ∀ f ∈ sample.features, inside f sample.seq.length := by decide
 example : getSeq sample.seq (expectedFeature [] (sample.features.getD 1 {})) = .ok ['C'] := by decide
 example : bases sample.seq 71 71 = ['C'] := by decide
 
@@ -244,7 +309,8 @@ newline.  `RegionEnd = 140 = len`: the break after letter 140 is suppressed, no 
 `RegionEnd = 1` (any value that is no multiple of 70 up to the length): breaks after 70 and 140, then
 the final newline leaves a blank line.  `RegionEnd = 70` (a smaller multiple): the break after
 letter 70 is suppressed — one 140-letter line — and the text ends with a blank line.  `Parse` skips
-blank lines and joins the others, so all three read back the same sequence (`parse_buildWith`). -/
+blank lines and joins the others, so all three read back the same sequence (`parse_buildWith`).
+(The correspondence check compares these line shapes with the real Build exactly: `buildx` cases.) -/
 def tailShape (regionEnd : Int) : List Nat :=
   ((split '\n' (build { name := ['s'], regionStart := 1, regionEnd := regionEnd, seq := List.replicate 140 'A' })).drop 5).map
     List.length
@@ -256,14 +322,17 @@ example : tailShape 70 = [140, 0, 0] := by decide +kernel
 def sampleDoc : GffDoc :=
   { version := "3.1.26".toList, region := "ctg123".toList, regionFirst := 1, regionLast := 9,
     feats := [{ seqid := "ctg123".toList, source := ['.'], type := "exon".toList, first := 2, last := 4, score := ['.'],
-                strand := ['+'], phase := ['.'], attrs := [("ID".toList, "e1".toList), ("Parent".toList, "m1".toList)] }],
+                strand := ['+'], phase := ['.'], attrs := [("ID".toList, "e1".toList), ("Parent".toList, "m1".toList)] },
+              { seqid := "ctg123".toList, source := ['.'], type := "exon".toList, first := 9, last := 9, score := ['.'],
+                strand := ['-'], phase := ['.'], attrs := [("ID".toList, "e2".toList)] }],
     defline := "ctg123 test".toList, seq := "ACGTACGTA".toList }
 def sampleLayout : Layout :=
-  { directives := ["##species x".toList], comments := ["# a comment".toList, ['#']], gaps := [2], closeMark := false,
-    widths := [4, 0, 3], finalNewline := false }
+  { between := [["##species x".toList, "# a comment".toList, []], [['#'], "###".toList]], after := ["###".toList, []],
+    fastaBetween := [[], ["# inside the sequence".toList]], widths := [4, 0, 3], finalNewline := false }
 
-example : wfDoc sampleDoc = true ∧ wfLayout sampleLayout = true := by decide
+example : wfDoc sampleDoc = true ∧ wfLayout sampleLayout = true ∧ plainLayout sampleLayout = true := by decide
 example : parse (layout sampleDoc sampleLayout) = .ok (denote sampleDoc) := by decide
+example : ∀ f ∈ sampleDoc.feats, insideLine f sampleDoc.seq.length := by decide
 example : getSeq (denote sampleDoc).seq (denoteFeat (sampleDoc.feats.getD 0 ⟨[], [], [], 0, 0, [], [], [], []⟩)) = .ok "CGT".toList := by decide
 
 end PolyVerif.Props.C14
